@@ -345,7 +345,8 @@ def cases(env, rng, thorough=False, parts=("stacks", "freeze", "circ", "conv")):
             for c in scal:
                 for nm, f, W in (("c*A", lambda: c * A, c * DA), ("A*c", lambda: A * c, c * DA), ("A/c", lambda: A / c, DA / c)):
                     yield (f"Circ{hs}/{ins}/{nd} {nm} c={c!r} ch={cplx_h}", ("circ", nm, hs, ins, nd, repr(c), cplx_h), check_op(env, f, W, "CircularConvolve " + nm, tol=1e-8))
-    conv_modes = ("full", "valid", "same") if thorough else (("full", "valid", "same")[int(rng.integers(3))], ("full", "valid", "same")[int(rng.integers(3))])
+    # (quick: one mode per seed here - the closed forms of 1-d Convolve are swept for all modes by conv_tie with the Lean model)
+    conv_modes = ("full", "valid", "same") if thorough else (("full", "valid", "same")[int(rng.integers(3))],)
     for mode in (dict.fromkeys(conv_modes) if "conv" in parts else ()):
         for hs, ins in ((((2,), (4,)), ((3,), (3,)), ((2, 2), (3, 4))) if thorough else (((2,), (4,)), ((2, 2), (3, 4)))):
             for cplx_h in (False, True):
@@ -481,11 +482,17 @@ def stack_oracle(env):
             try:
                 y = o(env.to_array(x, G.lst(o.input_shape), indt))
             except Exception as ex:  # noqa: BLE001
-                fails["evaluation_raised"] = {"x": [str(complex(v)) for v in x], "error": repr(ex)[:200]}
+                # an operand that evaluates an adjoint of operands of different dtypes (.T / .H / gram_op of a mixed sum):
+                # the recorded finding adj-dtype-check-mixed inside an operand - not a property of the stack
+                if not (not dt_uni and "Dtype error" in str(ex) and any(G.uses_adjoint(e) for e in case["es"])):
+                    fails["evaluation_raised"] = {"x": [str(complex(v)) for v in x], "error": repr(ex)[:200]}
                 break
             if G.lst(y.shape) != G.lst(o.output_shape):
                 fails["shape"] = {"declared": G.lst(o.output_shape), "returned": G.lst(y.shape)}
-            if np.dtype(y.dtype) != np.dtype(o.output_dtype):
+            # declared dtype = returned dtype is asserted for dtype-uniform operand lists (theorems C12_dtype_sound_uniform,
+            # C12_stack_dtypes); operands mixing dtypes carry the recorded findings mixed-operand-dtypes / adj-dtype-check-mixed
+            # into the stack (the returned dtype is still compared exactly with the model's prediction by the tie)
+            if dt_uni and np.dtype(y.dtype) != np.dtype(o.output_dtype):
                 fails["dtype"] = {"declared": np.dtype(o.output_dtype).name, "returned": np.dtype(y.dtype).name}
             if D is not None and list(D.shape) == [m, n] and not G.vec_close(env.flat(y), D @ x, tol, max(4, D.size)):
                 fails["value"] = {"x": [str(complex(v)) for v in x], "returned": [str(complex(v)) for v in env.flat(y)],
